@@ -1,6 +1,7 @@
 package main
 
 import (
+	"crypto/md5"
 	"time"
 	"sync"
 	"archive/tar"
@@ -369,6 +370,142 @@ func c02LargeIndex(r *rng, tier string, res *Result) {
 	}
 	_ = db.Close()
 	res.Tags["large_index_restarts"]++
+}
+
+// c02CloseFaults: "Close returned nil" must mean "cleanly closed". The k-th state-changing file-system
+// call of Close fails once, for every k: if Close reports the error, the lock file stays and the
+// next Open recovers; if Close returns nil, the next Open is a clean one -- either way the contents
+// are the ones at Close.
+func c02CloseFaults(r *rng, tier string, res *Result) {
+	for k := 0; k < 40; k++ {
+		t := tfs.New()
+		mk := func() *pogreb.Options {
+			o := &pogreb.Options{FileSystem: t}
+			pogreb.VerifSetThresholds(o, 1024, 512, math.Float32frombits(fragBits(0.3)))
+			return o
+		}
+		db, err := pogreb.Open("db", mk())
+		if err != nil {
+			return
+		}
+		ref := map[string]string{}
+		for i := 0; i < 30; i++ {
+			kk, vv := fmt.Sprintf("cf-%02d", i), strings.Repeat("v", 20+r.intn(40))
+			if db.Put([]byte(kk), []byte(vv)) == nil {
+				ref[kk] = vv
+			}
+		}
+		for i := 0; i < 30; i += 7 {
+			_ = db.Delete([]byte(fmt.Sprintf("cf-%02d", i)))
+			delete(ref, fmt.Sprintf("cf-%02d", i))
+		}
+		t.FailWriteCall = t.WriteCalls + k
+		cerr := db.Close()
+		reached := t.WriteCalls > t.FailWriteCall
+		t.FailWriteCall = -1
+		if !reached {
+			break // Close makes fewer than k state-changing calls: all injection points done
+		}
+		res.Tags["close_fault_injection_points"]++
+		// the process goes away; descriptors are closed, the directory stays
+		t2 := tfs.CrashKeepPending(t.Base(), t.Events(0, t.NumEvents()), t.NumEvents(), 0)
+		_, hasLock := t2.Image()["db/lock"]
+		what := ""
+		if cerr == nil && hasLock {
+			what = "Close returned nil but left the lock file"
+		}
+		if cerr != nil && !hasLock {
+			what = "Close returned an error (" + cerr.Error() + ") but removed the lock file"
+		}
+		if what == "" {
+			o := mk()
+			o.FileSystem = t2
+			db2, err := pogreb.Open("db", o)
+			if err != nil {
+				what = fmt.Sprintf("Close returned %v; the next Open fails: %v", cerr, err)
+			} else {
+				if int(db2.Count()) != len(ref) {
+					what = fmt.Sprintf("Close returned %v; after the next Open Count() = %d, closed with %d", cerr, db2.Count(), len(ref))
+				}
+				for kk, vv := range ref {
+					if got, _ := db2.Get([]byte(kk)); string(got) != vv && what == "" {
+						what = fmt.Sprintf("Close returned %v; after the next Open Get(%s) = %q", cerr, kk, clip(string(got)))
+					}
+				}
+				_ = db2.Close()
+			}
+		}
+		if what != "" {
+			res.Findings = append(res.Findings, &Finding{Kind: "spec", Case: fmt.Sprintf("C02/close-fault/%d", k), Cmd: fmt.Sprintf("Close with its state-changing file-system call number %d failing once", k),
+				Impl: []string{what}, Expected: []string{"nil from Close means cleanly closed; an error means the next Open recovers; the contents are kept either way"},
+				Program: []string{"open", "30 x put, 5 x delete (1 KiB segments)", fmt.Sprintf("close with call %d failing", k), "open"}})
+			return
+		}
+	}
+}
+
+// c16LargeValueOnMMap: a value far above any small mapping granularity (130 MiB, a quarter of the
+// limit) round-trips on the default memory-mapped file system, in the session that wrote it and
+// after a restart.
+func c16LargeValueOnMMap(r *rng, tier string, res *Result) {
+	tmp, err := os.MkdirTemp("", "pgh-c16-")
+	if err != nil {
+		return
+	}
+	defer os.RemoveAll(tmp)
+	big := make([]byte, 130<<20)
+	for i := range big {
+		big[i] = byte(i*13 + i>>9)
+	}
+	sum := md5.Sum(big)
+	what := ""
+	func() {
+		defer func() {
+			if rec := recover(); rec != nil {
+				what = fmt.Sprint("panic: ", rec)
+			}
+		}()
+		db, err := pogreb.Open(filepath.Join(tmp, "db"), nil)
+		if err != nil {
+			what = "open: " + err.Error()
+			return
+		}
+		defer func() { _ = db.Close() }()
+		_ = db.Put([]byte("small"), []byte("x"))
+		if err := db.Put([]byte("big"), big); err != nil {
+			what = "put: " + err.Error()
+			return
+		}
+		v, err := db.Get([]byte("big"))
+		if err != nil || len(v) != len(big) || md5.Sum(v) != sum {
+			what = fmt.Sprintf("Get right after Put: %d bytes, err %v", len(v), err)
+			return
+		}
+	}()
+	if what == "" {
+		func() {
+			defer func() {
+				if rec := recover(); rec != nil {
+					what = fmt.Sprint("panic after restart: ", rec)
+				}
+			}()
+			db, err := pogreb.Open(filepath.Join(tmp, "db"), nil)
+			if err != nil {
+				what = "reopen: " + err.Error()
+				return
+			}
+			defer func() { _ = db.Close() }()
+			v, err := db.Get([]byte("big"))
+			if err != nil || len(v) != len(big) || md5.Sum(v) != sum {
+				what = fmt.Sprintf("Get after restart: %d bytes, err %v", len(v), err)
+			}
+		}()
+	}
+	if what != "" {
+		res.Findings = append(res.Findings, &Finding{Kind: "spec", Case: "C16/large-value-osmmap", Cmd: "Put and Get of a 130 MiB value, default options (fs.OSMMap)",
+			Impl: []string{clip(what)}, Expected: []string{"the value, byte for byte"}, Program: []string{"open (default options)", "put small x", "put big <130 MiB>", "get big", "close", "open", "get big"}})
+	}
+	res.Tags["large_value_round_trips_on_osmmap"]++
 }
 
 // cBackgroundDuringRecovery: a database opened with background compaction (and sync) enabled, after
